@@ -167,10 +167,10 @@ def patched(*triples):
                     pass
 
 
-def symbolic_dims(spec: str):
+def symbolic_dims(spec: str, constraints=()):
     """jax.export.symbolic_shape wrapper: symbolic_dims('T, N') -> tuple of dimension variables."""
     from jax import export
-    return export.symbolic_shape(spec)
+    return export.symbolic_shape(spec, constraints=tuple(constraints))
 
 
 # ----------------------------------------------------------------------------------------------
